@@ -493,7 +493,7 @@ func c06rMonitor(tbl []c06rEntry, name string, qt uint16, o c06rObs) (ok bool, k
 	for _, e := range tbl {
 		ip, err := netip.ParseAddr(e.ans)
 		if err != nil && e.ans != "A" && e.ans != "AAAA" {
-			answers[e.ans] = true
+			answers[strings.ToLower(e.ans)] = true // names are compared without letter case
 		}
 		if !c06rMatches(e.dom, host) {
 			continue
@@ -542,7 +542,7 @@ func c06rMonitor(tbl []c06rEntry, name string, qt uint16, o c06rObs) (ok bool, k
 			return false, "upstream-calls", "upstream asked for another type"
 		}
 		if !strings.EqualFold(asked, name) {
-			if !answers[asked] {
+			if !answers[strings.ToLower(asked)] {
 				return false, "upstream-calls", fmt.Sprintf("upstream asked for %q, which is neither the queried name nor a CNAME value of the table", asked)
 			}
 			// CNAME resolved upstream: CNAME first, then the upstream's records
@@ -550,18 +550,18 @@ func c06rMonitor(tbl []c06rEntry, name string, qt uint16, o c06rObs) (ok bool, k
 				return false, "cname-missing", "CNAME not prepended to the upstream answer"
 			}
 			cn, isC := o.res.Answer[0].(*dns.CNAME)
-			if !isC || !strings.EqualFold(c06rTrim(cn.Hdr.Name), name) || c06rTrim(cn.Target) != asked {
+			if !isC || !strings.EqualFold(c06rTrim(cn.Hdr.Name), name) || !strings.EqualFold(c06rTrim(cn.Target), asked) {
 				return false, "cname-missing", "first answer is not the CNAME from the queried name to the name asked upstream"
 			}
 			for _, rr := range o.res.Answer[1:] {
-				if c06rTrim(rr.Header().Name) != asked {
+				if !strings.EqualFold(c06rTrim(rr.Header().Name), asked) {
 					return false, "cname-chain", "records after the CNAME are not for the canonical name"
 				}
 			}
 			// the canonical name must not have a usable value in the table
 			cCname, cExc, cVal := false, false, false
 			for _, e := range tbl {
-				if !c06rMatches(e.dom, asked) {
+				if !c06rMatches(e.dom, strings.ToLower(asked)) {
 					continue
 				}
 				ip, err := netip.ParseAddr(e.ans)
